@@ -350,8 +350,10 @@ def run_cli(ctx, srcs, tag):
     return pmap(one, list(range(len(srcs))))
 
 
-def three_way(ctx, srcs, with_model_machine=True):
-    """Returns per program dict(cli=(kind,outcome,out), hook=..., mm=..., bs=...)."""
+def three_way(ctx, srcs, with_model_machine=True, cli_mask=None):
+    """Returns per program dict(cli=(kind,outcome,out) or None, hook=..., mm=..., bs=...).
+    `cli_mask[i]` false = no `garden run` process for program i (quick tier: the in-process hook
+    evaluator, which is compared with the CLI on all the others, stands in for it)."""
     ctx.log("three-way: %d programs: astx" % len(srcs))
     ast = ctx.garden_batch(["astx " + hexs(s) for s in srcs])
     bodies = [a[3:] if a and a.startswith("OK ") else "(astx 1)" for a in ast]
@@ -364,15 +366,24 @@ def three_way(ctx, srcs, with_model_machine=True):
     else:
         mm = [None] * len(srcs)
     ctx.log("three-way: model machine done; garden run (CLI)")
-    cli = [classify_cli(*x) + (x[1],) for x in run_cli(ctx, srcs, "cli")]
-    ctx.log("three-way: CLI done")
+    idx = [i for i in range(len(srcs)) if cli_mask is None or cli_mask[i]]
+    got = run_cli(ctx, [srcs[i] for i in idx], "cli")
+    cli = [None] * len(srcs)
+    for i, x in zip(idx, got):
+        cli[i] = classify_cli(*x) + (x[1],)
+    ctx.log("three-way: CLI done (%d processes)" % len(idx))
     return [dict(cli=c, hook=h, mm=m, bs=b) for c, h, m, b in zip(cli, hook, mm, bs)]
 
 
 def judge(ctx, src, r, stream, hist, check_mm=True):
     """Compare the observations of one program. Returns True when the program counted."""
-    ckind, coutcome, cout = r["cli"]
     bs, hook, mm = r["bs"], r["hook"], r["mm"]
+    if r["cli"] is not None:
+        ckind, coutcome, cout = r["cli"]
+    elif hook["kind"] in ("ok", "err"):
+        ckind, coutcome, cout = hook["kind"], hook.get("outcome") or "", hook.get("out", "")
+    else:
+        ckind, coutcome, cout = hook["kind"], hook.get("raw", ""), ""
     if bs["kind"] == "parse-error" or hook["kind"] == "parse-error":
         hist["parse-error"] = hist.get("parse-error", 0) + 1
         return False
@@ -381,11 +392,13 @@ def judge(ctx, src, r, stream, hist, check_mm=True):
         return False
     key = "ok" if ckind == "ok" else "%s:%s" % (ckind, norm_kind(coutcome).split(" ")[0] if ckind == "err" else "")
     hist[key] = hist.get(key, 0) + 1
-    if ckind in ("panic", "crash", "timeout"):
+    if ckind in ("panic", "crash", "timeout", "died"):
         ctx.fail("C05/%s/%s" % (ckind, stream), "`garden run` %s: %s" % (ckind, coutcome), src=src, stdout=cout[-300:])
         return True
     # hook vs CLI: same evaluator, must be the same observation
-    if hook["kind"] in ("ok", "err"):
+    if r["cli"] is None:
+        pass
+    elif hook["kind"] in ("ok", "err"):
         d = same(ckind, coutcome, cout, hook["kind"], hook.get("outcome"), hook.get("out", ""))
         if d:
             ctx.disagree("hook `machine` vs `garden run`", {"src": src}, None, None, detail=d)
@@ -415,8 +428,8 @@ def judge(ctx, src, r, stream, hist, check_mm=True):
 def run(ctx):
     rng = ctx.rng
     div = int(os.environ.get("VERIF_C05_DIV", "1"))   # debugging aid: shrink every stream
-    nrand = ctx.scale(1000, 40000) // div
-    ntemp = max(1, ctx.scale(15, 500) // div)
+    nrand = ctx.scale(1200, 40000) // div
+    ntemp = max(1, ctx.scale(12, 500) // div)
     nmal = max(1, ctx.scale(4, 120) // div)
     progs = []     # (stream, src, features)
     for _ in range(nrand):
@@ -461,8 +474,15 @@ def run(ctx):
                 "every level, break followed by a loop, shadowing across function boundaries, user enums) + a malformed stream "
                 "(29 ill-formed families + random programs with 15% injected errors). Each program: real parser tree -> "
                 "big-step reference / model machine (Lean), hook evaluator, and `garden run` (CLI). Non-trivial = the program "
-                "has a loop, an early exit, a call of a user function or closure, or a match, and runs on all three.")
-    res = three_way(ctx, [s for _, s, _ in progs])
+                "has a loop, an early exit, a call of a user function or closure, or a match, and runs on all three. "
+                "Quick tier: `garden run` processes for every template / malformed program and 25% of the random ones; "
+                "for the others the in-process hook evaluator (same code, compared with the CLI on the rest) stands in. "
+                "Thorough: a CLI process for every program.")
+    # quick tier: every template / malformed program and 25% of the random ones go through the CLI
+    mask = [(not st.startswith("random")) or (not ctx.quick()) or rng.random() < 0.25 for st, _, _ in progs]
+    res = three_way(ctx, [s for _, s, _ in progs], cli_mask=mask)
+    ctx.cov["garden_run_processes"] = sum(1 for m in mask if m)
+    ctx.cov["hook_evaluator_only"] = sum(1 for m in mask if not m)
     hist_valid, hist_mal, feats, streams = {}, {}, {}, {}
     wf_bad, levels, exits_bad, n_counted = 0, {}, 0, 0
     for (stream, src, feat), r in zip(progs, res):
@@ -487,7 +507,8 @@ def run(ctx):
     for i in (0, nvalid - 1, nvalid + 3, len(progs) - 1):
         stream, src, _ = progs[i]
         r = res[i]
-        ctx.sample({"stream": stream, "src": src[:600], "garden_run": list(r["cli"][:2]) + [r["cli"][2][-120:]],
+        c = r["cli"] or (r["hook"].get("kind"), r["hook"].get("outcome"), r["hook"].get("out", ""))
+        ctx.sample({"stream": stream, "src": src[:600], "garden_run": list(c[:2]) + [(c[2] or "")[-120:]],
                     "reference": [r["bs"].get("kind"), r["bs"].get("outcome")]})
     ctx.cov["programs_by_stream"] = streams
     ctx.cov["outcome_histogram_valid_stream"] = hist_valid
@@ -531,6 +552,6 @@ def replay(ctx, path):
             if src:
                 break
     r = three_way(ctx, [src])[0]
-    ctx.log("replay: garden run %s / reference %s %s" % (list(r["cli"][:2]), r["bs"].get("kind"), r["bs"].get("outcome")))
+    ctx.log("replay: garden run %s / reference %s %s" % (list((r["cli"] or ("?", "?"))[:2]), r["bs"].get("kind"), r["bs"].get("outcome")))
     judge(ctx, src, r, "replay", {})
     ctx.case(src, True)
